@@ -1311,6 +1311,26 @@ def setitem(t, key, value):
     if isinstance(value, (list, tuple)):
         value = from_nested(value, kind=t.kind)
     if has_mask:
+        full = lambda k: isinstance(k, slice) and k.start is None and k.stop is None and k.step is None
+        lead = 0
+        while lead < len(key_l) and full(key_l[lead]):
+            lead += 1
+        if lead > 0 and lead < len(key_l) and isinstance(key_l[lead], STensor) and key_l[lead].dtype == BOOL and all(full(k) for k in key_l[lead + 1:]):
+            # t[:, mask] = v  ==  (t moved so the masked axes lead)[mask] = v
+            if isinstance(value, STensor) and value.rank > 0:
+                raise Unsupported("t[:, mask] = tensor")
+            mask = key_l[lead]
+            m = mask.rank
+            for a, b in zip(mask.shape, t.shape[lead:lead + m]):
+                e = dims_equal(a, b)
+                if e is False:
+                    raise PyExc("IndexError", ("boolean index did not match indexed array: %s vs %s" % (mask.shape, t.shape),))
+                if e is None:
+                    ctx.cur().require(i_eq(a, b), "IndexError", "mask shape mismatch")
+            mr = mask.reader()
+            vv = cast_scalar(value.at([]) if isinstance(value, STensor) else value, t.dtype)
+            t.write(lambda idx, old: ite(to_bool(mr(idx[lead:lead + m])), vv, old))
+            return
         mask = key_l[0]
         if not (isinstance(mask, STensor) and mask.dtype == BOOL):
             raise Unsupported("mask index not in leading position")
